@@ -28,6 +28,22 @@ def gen_width_tasks(tier, seed):
                 e0 = rng.choice(es)
                 if any(f for (u, v, f) in arb if (u, v) != e0):
                     tasks.append({**base, "wt": "int", "ignored": [list(e0)]})
+                    # an element with error scale 0 counts as ignored for the covering number as well
+                    tasks.append({**base, "wt": "int", "ignored": [list(e0)], "via_scaling": True})
+            # node-weighted: covering number over the nodes that are neither ignored nor zero-scaled
+            import networkx as _nx
+            Gn = _nx.DiGraph(es)
+            nf = {v: rng.choice((1, 2, 3)) for v in Gn.nodes()}
+            v0 = rng.choice(list(Gn.nodes()))
+            # prefer a node whose removal from the demand lowers the covering number (then 'ignored' must really be honoured)
+            cb = {"cyc": cyc, "starts": [], "ends": [], "constraints": [], "node_mode": True, "edges": es}
+            k_all = c09.reference_min_k({**cb, "ignored": []}, Gn, 4)[0]
+            better = [v for v in Gn.nodes() if (c09.reference_min_k({**cb, "ignored": [v]}, Gn, 4)[0] or 9) < (k_all or 0)]
+            if better:
+                v0 = rng.choice(better)
+            tasks.append({**base, "wt": "int", "node_mode": True, "node_flow": nf, "edges": [(u, v, None) for (u, v) in es], "ignored": [v0], "via_scaling": True})
+            tasks.append({**base, "wt": "int", "node_mode": True, "node_flow": nf, "edges": [(u, v, None) for (u, v) in es], "ignored": [v0]})
+            tasks.append({**base, "wt": "int", "node_mode": True, "node_flow": nf, "edges": [(u, v, None) for (u, v) in es]})
     return tasks
 
 
@@ -48,11 +64,15 @@ def run_width_task(task):
     res["discharged"] += 1
     res["nontrivial"] += 1 if k_ref >= 2 else 0
     kw = {"weight_type": task["wt"]}
-    if task["ignored"]:
+    if task["node_mode"]:
+        kw["flow_attr_origin"] = "node"
+    if task["ignored"] and task.get("via_scaling"):
+        kw["error_scaling"] = [[e, 0] for e in task["ignored"]]
+    elif task["ignored"]:
         kw["elements_to_ignore"] = task["ignored"]
     desc = {"cls": cls, "graph": task["name"], "edges": task["edges"], "ignored": task["ignored"], "w*": k_ref}
     for k in (None, k_ref, k_ref + 1):
-        t = {"cls": cls, "edges": task["edges"], "kwargs": {**kw, "k": k}}
+        t = {"cls": cls, "edges": task["edges"], "node_flow": task.get("node_flow"), "kwargs": {**kw, "k": k}}
         try:
             with hx.capture() as sess:
                 m, _ = models.construct(t)
@@ -81,9 +101,37 @@ def run_width_task(task):
             res["discharged"] += 1
         else:
             res["extra"]["disagreements_checked"] = res["extra"].get("disagreements_checked", 0) + 1
+            if task["cyc"] and _witness_exceeds_cap(task, m, lp, wit):
+                res["violations"].append({"signature": f"{cls}:infeasible-although-solution-exists:needs-traversals-above-repetition-cap",
+                                          "summary": f"{task['name']} k={k if k else m.k}: LP {r}, solved={ok}; the covering walks {wit} need more traversals than the repetition cap allows",
+                                          "replay": {"kind": "width", "task": task}})
+                continue
             res["violations"].append({"signature": f"{cls}:unsolved-for-k>=width", "summary": f"{task['name']} k={k if k else m.k}: LP {r}, solved={ok}, covering number {k_ref}",
                                       "replay": {"kind": "width", "task": task}})
     return res
+
+
+def _witness_exceeds_cap(task, m, lp, wit):
+    """wit = list (per walk) of [u, v, multiplicity]: does some walk need an edge (node, in node mode) more often than the LP's column bound?"""
+    try:
+        cols = models.edge_cols(m)
+        for walk in wit or []:
+            visits = {}
+            for u, v, c in walk:
+                if task["node_mode"]:
+                    visits[v] = visits.get(v, 0) + c
+                    ub = lp.ub[cols[(u + ".1", v + ".0", 0)]]
+                else:
+                    ub = lp.ub[cols[(u, v, 0)]]
+                if ub is not None and c > ub:
+                    return True
+            for v, c in visits.items():
+                ub = lp.ub[cols[(v + ".0", v + ".1", 0)]]
+                if ub is not None and c > ub:
+                    return True
+    except Exception:
+        return False
+    return False
 
 
 def run_task(task):
